@@ -27,7 +27,7 @@ ASSUMPTIONS = [
     "tracebacks and handler calls are optional",
 ]
 
-PROG = P.programs(multi=True, details=True, fixture=True, expect=True, onexc=True, cleanup_depth=2, p_raise=5, nonexc=True, texts=True)
+PROG = P.programs(multi=True, details=True, fixture=True, expect=True, onexc=True, cleanup_depth=2, p_raise=5, nonexc=True, texts=True, decor=True)
 
 
 def run_case(prog):
